@@ -20,6 +20,11 @@ mod transport;
 pub mod util;
 mod xpub;
 
+#[cfg(feature = "verif-hooks")]
+#[doc(hidden)]
+#[path = "verif_hooks.rs"]
+pub mod __verif;
+
 #[doc(hidden)]
 pub mod __async_rt {
     //! DO NOT USE! PRIVATE IMPLEMENTATION, EXPOSED ONLY FOR INTEGRATION TESTS.
